@@ -968,3 +968,31 @@ Proof.
     destruct (is_nl (lchr b r1 o1)); cbn [b2z]; xstep; exact Hfinal.
   - unfold nl0 in Hfinal. cbn [andb] in Hfinal. exact Hfinal.
 Qed.
+
+(* ------------------------------------------------------------------ when nl_ok holds *)
+(* a line without UTF-8 lead bytes (all bytes below 0xC0, e.g. ASCII): uc_code reads one byte *)
+Definition no_lead (s : bytes) : Prop := Forall (fun c => (c < 192)%N) s.
+Lemma nolead_bits : forall c, (c < 256)%N -> (c <? 192)%N = negb (bit c 128 && bit c 64).
+Proof. byte_fact. Qed.
+Lemma nolead_len : forall c, (c < 256)%N -> ((c <? 192)%N && (2 <=? uc_len_b c)%nat) = false.
+Proof. byte_fact. Qed.
+Lemma nthb_nolead s q : no_lead s -> (nthb s q < 192)%N.
+Proof.
+  intro H. unfold nthb. destruct (Nat.lt_ge_cases q (length s)) as [L|L].
+  - unfold no_lead in H. rewrite Forall_forall in H. apply H. apply nth_In. exact L.
+  - rewrite nth_overflow by exact L. reflexivity.
+Qed.
+Lemma uc_code_single t : (nthb t 0 < 192)%N -> uc_code t = nthb t 0.
+Proof.
+  intro H. unfold uc_code. pose proof (nolead_bits (nthb t 0) ltac:(lia)) as E.
+  destruct (N.ltb_spec (nthb t 0) 192); [|lia]. rewrite <- E. reflexivity.
+Qed.
+Lemma nthb0_hd_chr t : nthb (hd_chr t) 0 = nthb t 0.
+Proof. destruct t as [|x t]; [reflexivity|]. unfold hd_chr. destruct (Nat.max 1 (uc_next (x :: t))) eqn:E; [lia|reflexivity]. Qed.
+Lemma nl_ok_nolead s : no_lead s -> nl_ok s.
+Proof.
+  intros H q Hq. pose proof (nthb_nolead s q H) as Hc. split.
+  - pose proof (nolead_len (nthb s q) ltac:(lia)) as E. destruct (N.ltb_spec (nthb s q) 192); [|lia]. cbn [andb] in E.
+    apply Nat.leb_gt in E. lia.
+  - unfold is_nl, code. rewrite !uc_code_single; [rewrite nthb0_hd_chr; reflexivity| |]; rewrite ?nthb0_hd_chr, nthb_skipn, Nat.add_0_r; exact Hc.
+Qed.
